@@ -179,10 +179,52 @@ class DocGen:
             else:
                 self.decl("fw%d" % n, "class fw%d;" % n, indent)
 
+    def oneline(self, n, indent):
+        """a block written on one line: the doc comment of the first member shares the line with the opening brace, a trailing doc
+        comment shares it with the closing brace, or the next sibling (with its doc comment) follows the closing brace directly"""
+        rng = self.rng
+        if self.after_trailing:
+            self.lines.append("")
+            self.after_trailing = False
+        key = rng.choice(["namespace", "namespace", "struct", "extern"])
+        st = rng.choice(["/**", "/*!", "/***"])
+        m = self.fresh()
+        src, txt = doc_text(st, "w%d" % self.fresh())
+        head = {"namespace": "namespace on%d {" % n, "struct": "struct on%d {" % n, "extern": 'extern "C" {'}[key]
+        tail = "};" if key == "struct" else "}"
+        # (a doc comment between two declarations on one line both trails the first and precedes the second: the statement
+        # leaves its owner open, so that layout is not generated)
+        form = rng.choice(["first", "first", "trailing", "sibling", "after-end"])
+        if key != "extern":
+            self.expect["on%d" % n] = None
+        if form == "first":
+            self.lines.append(indent + "%s %s int ov%d; %s" % (head, src[0], m, tail))
+            self.expect["ov%d" % m] = txt
+        elif form == "trailing":
+            tsrc, ttxt = doc_text(rng.choice(["///<", "///", "//!"]), "t%d" % self.fresh())
+            self.lines.append(indent + "%s int ov%d; %s" % (head, m, tsrc[0]))
+            self.lines.append(indent + tail)
+            self.expect["ov%d" % m] = ttxt
+        elif form == "after-end":
+            # the comment stands behind the closing brace: it is the next declaration's, not the last member's
+            k = self.fresh()
+            inner = "int ou%d;" % k if key != "enumlike" else ""
+            if key == "struct" and rng.random() < 0.5:
+                head, inner = "enum on%d {" % n, "ou%d" % k
+            self.lines.append(indent + "%s %s %s %s int ov%d;" % (head, inner, tail, src[0], m))
+            self.expect["ou%d" % k] = None
+            self.expect["ov%d" % m] = txt
+        else:
+            self.lines.append(indent + "%s %s %s int ov%d;" % (head, tail, src[0], m))
+            self.expect["ov%d" % m] = txt
+
     def toplevel(self, budget, indent=""):
         rng = self.rng
         for _ in range(budget):
             n = self.fresh()
+            if rng.random() < 0.08:
+                self.oneline(n, indent)
+                continue
             r = rng.random()
             if r < 0.08:
                 # declarations introduced by a specifier, a linkage specification or a decoration: the comment above belongs
@@ -341,7 +383,8 @@ def search(ctx, boost=False):
     s.rule = ("AST-first documented programs: every documentable declaration (variables, functions, using aliases, forward declarations, "
               "concepts, enums and enumerators, classes, fields, methods, namespaces; second declarators; attribute/template prefixes) "
               "independently gets a uniquely worded doc block above (1-3 comments of 5 styles), a detached block, a trailing doc comment "
-              "(optionally continued), a plain comment above/trailing, or nothing; doc blocks before access specifiers and closing braces; "
+              "(optionally continued), a plain comment above/trailing, or nothing; doc blocks before access specifiers and closing braces; blocks written on one line (doc comment of the first member next to "
+              "the opening brace, trailing comment, sibling after the closing brace); "
               "oracle: doxygen of every declaration equals the plan, no text attributed twice; non-trivial = program with >=1 doc comment; "
               "distinct = distinct source")
     rng = ctx.rng
